@@ -658,8 +658,8 @@ int tokens_get(AsmContext *asm_context, char *token, int len)
 
   if (IS_TOKEN(token, '$'))
   {
-    snprintf(token, len, "%d",
-      asm_context->address / asm_context->bytes_per_address);
+    snprintf(token, len, "%u",
+      (uint32_t)asm_context->address / asm_context->bytes_per_address);
     token_type = TOKEN_NUMBER;
   }
 
